@@ -41,6 +41,12 @@ pub struct ScenarioOpts {
     pub contract_snippets: usize,
     /// per-mille probability that the gas limit is chosen small (runs out mid-program)
     pub tight_gas: u32,
+    /// override of the consensus parameter `max_storage_slot_length` (None = standard)
+    pub max_storage_slot_length: Option<u64>,
+    /// per-mille probability (among the not-tight cases) of a medium gas limit in
+    /// [400, 20_400): runs out inside callees / dependent charges. 0 = never (no extra
+    /// random draw, generated scenarios unchanged)
+    pub mid_gas: u32,
 }
 
 impl Default for ScenarioOpts {
@@ -50,10 +56,12 @@ impl Default for ScenarioOpts {
             contract_weights: Weights::default(),
             schedule: 0,
             gas_price: 0,
+            max_storage_slot_length: None,
             max_contracts: 3,
             script_snippets: 14,
             contract_snippets: 10,
             tight_gas: 120,
+            mid_gas: 0,
         }
     }
 }
@@ -147,7 +155,13 @@ pub fn random_gas_costs(rng: &mut Rng) -> GasCosts {
 
 /// Build a scenario deterministically from `rng`.
 pub fn build(rng: &mut Rng, o: &ScenarioOpts) -> Scenario {
-    let params = params_with_schedule(rng, o.schedule);
+    let mut params = params_with_schedule(rng, o.schedule);
+    if let Some(m) = o.max_storage_slot_length {
+        let sp = *params.script_params();
+        if matches!(sp, fuel_tx::ScriptParameters::V2(_)) {
+            params.set_script_params(sp.with_max_storage_slot_length(m));
+        }
+    }
     let mut world = World::new(params, o.gas_price);
     // blobs
     let nb = rng.below(3) as usize;
@@ -245,6 +259,8 @@ pub fn build(rng: &mut Rng, o: &ScenarioOpts) -> Scenario {
     let script = prog::generate(rng, &env, Mode::Script, o.weights.clone(), n);
     let gas_limit = if rng.below(1000) < o.tight_gas as u64 {
         rng.below(400)
+    } else if o.mid_gas > 0 && rng.below(1000) < o.mid_gas as u64 {
+        400 + rng.below(20_000)
     } else {
         20_000 + rng.below(200_000)
     };
